@@ -667,7 +667,7 @@ func isNewMaster(cand, exist *spb.Uint128) (bool, bool, error) {
 	if cand.High > exist.High {
 		return true, false, nil
 	}
-	if cand.Low > exist.Low {
+	if cand.High == exist.High && cand.Low > exist.Low {
 		return true, false, nil
 	}
 
